@@ -139,3 +139,55 @@ def multi_target_cells(tier: str, seed: int):
                                     "action": {"kind": "op", "entry": "ce", "fam": "Composite", "type": typ, "params": params,
                                                "targets": [LY.rename(spec, t) for t in targets]}})
     return cells
+
+
+def autodim_cells(tier: str, seed: int):
+    """C10 (automatic dimension): displacement / squeezing / expression with complex parameters of any phase, ladder,
+    phase and beam-splitter operations on basis, superposed, entangled and mixed inputs."""
+    import math
+    cells = []
+    quick = tier == "quick"
+    params = []
+    mags = (0.3, 1.0) if quick else (0.1, 0.5, 1.0, 1.6, 2.0)
+    nph = 4 if quick else 8
+    for m in mags:
+        for k in range(nph):
+            ph = 2 * math.pi * k / nph
+            params.append(("Displace", {"alpha": {"re": round(m * math.cos(ph), 6), "im": round(m * math.sin(ph), 6)}}))
+    for m in ((0.2, 0.6) if quick else (0.1, 0.4, 0.8, 1.2)):
+        for k in range(nph):
+            ph = 2 * math.pi * k / nph
+            params.append(("Squeeze", {"zeta": {"re": round(m * math.cos(ph), 6), "im": round(m * math.sin(ph), 6)}}))
+    params += [("Creation", {}), ("Annihilation", {}), ("PhaseShift", {"phi": 2.1}),
+               ("Expresion", {"expr": ["expm", ["s_mult", {"re": 0, "im": 1}, 0.4, "n"]], "context": "ladder"}),
+               ("Expresion", {"expr": ["expm", ["s_mult", 0.3, ["sub", "ad", "a"]]], "context": "ladder"})]
+    n = 0
+    for typ, pr in params:
+        for lv, cls, label in (("L", "basis", 0), ("L", "basis", 1), ("V", "pure", None), ("M", "mixed", None), ("V", "basis", None)):
+            if typ == "Annihilation" and label == 0:
+                continue
+            n += 1
+            spec = LY.make_spec([], {}, {}, envs=("e0",), customs=(), composite=False, default_level=lv, default_cls=cls,
+                                labels={"e0.f": label if label is not None else 1}, fock_dims={"e0": 3})
+            cells.append({"world": spec, "layout": "alone", "levels": lv, "cls": cls, "contraction": bool(n % 2), "seed": seed,
+                          "variant": f"label{label}", "action": {"kind": "op", "entry": "self", "fam": "Fock", "type": typ, "params": pr, "targets": ["e0.f"]}})
+        if quick and n % 3:
+            continue
+        for tag, blocks in (("ps:f0,p1", [("ps", ["e0.f", "e1.p"])]), ("env10", [("env", ["e0.p", "e0.f"])]), ("ps:c0,p0,f1|f0", [("ps", ["c0", "e0.p", "e1.f"])])):
+            for lv, cls in (("V", "pure"), ("M", "mixed")):
+                spec = LY.make_spec(blocks, {b[1][0]: lv for b in blocks}, {}, default_level=lv, default_cls=cls)
+                cells.append({"world": spec, "layout": tag, "levels": lv, "cls": cls, "contraction": True, "seed": seed, "reordered": True,
+                              "action": {"kind": "op", "entry": "ce", "fam": "Fock", "type": typ, "params": pr, "targets": [LY.rename(spec, "e0.f")]}})
+    for eta in (0.3, -1.2, 2.5):
+        for lab0, lab1 in ((1, 0), (2, 1), (0, 0), (1, 1)):
+            spec = LY.make_spec([], {}, {}, default_level="L", default_cls="basis", labels={"e0.f": lab0, "e1.f": lab1})
+            cells.append({"world": spec, "layout": "own", "levels": "L", "cls": "basis", "contraction": True, "seed": seed, "variant": f"{lab0}{lab1}",
+                          "action": {"kind": "op", "entry": "ce", "fam": "Composite", "type": "NonPolarizingBeamSplitter", "params": {"eta": eta},
+                                     "targets": [LY.rename(spec, "e0.f"), LY.rename(spec, "e1.f")]}})
+        for tag, blocks in (("ps:f1,f0", [("ps", ["e1.f", "e0.f"])]), ("ps:f0,p1", [("ps", ["e0.f", "e1.p"])])):
+            for lv, cls in (("V", "pure"), ("M", "mixed")):
+                spec = LY.make_spec(blocks, {b[1][0]: lv for b in blocks}, {}, default_level=lv, default_cls=cls)
+                cells.append({"world": spec, "layout": tag, "levels": lv, "cls": cls, "contraction": True, "seed": seed, "reordered": True,
+                              "action": {"kind": "op", "entry": "ce", "fam": "Composite", "type": "NonPolarizingBeamSplitter", "params": {"eta": eta},
+                                         "targets": [LY.rename(spec, "e0.f"), LY.rename(spec, "e1.f")]}})
+    return cells
